@@ -97,6 +97,9 @@ def schedule(rnd, n, finite_ops=True):
         s.append(['next', 2, 0])
     if finite_ops:
         s += [['list?', 0, 0], ['new?', 5, 'stream'], ['take?', 5, 1], ['all?', 5, 0]]
+        # a finished stream stays finished: ask every stream again, read the same stream objects a second time
+        s += [['next?', 5, 0], ['all?', 5, rnd.choice([0, 'list'])], ['next?', 1, 0], ['next?', 1, 0], ['take?', 4, n],
+              ['all?', 2, 'list'], ['next?', 2, 0], ['all?', 3, 'list'], ['all?', 3, 'list'], ['next?', 4, 0]]
     return s
 
 
@@ -108,6 +111,7 @@ class Gen:
 
     def __init__(self, rnd):
         self.r = rnd
+        self.noif = 0       # (kept for steering generators around a listed finding; unused since the Pif fix 7e0cea6)
 
     def ints(self, k=None):
         return [I(self.r.randint(0, 4)) for _ in range(k or self.r.randint(1, 4))]
@@ -129,7 +133,7 @@ class Gen:
             return {'t': 'slide', 'l': l, 'n': I(r.randint(1, 3)), 'st': I(r.choice([1, -1, 2])),
                     'k': r.randint(0, len(l) - 1), 'wr': r.random() < 0.6, 'r': r.choice([1, 2, 3] if fin else [2, 3, INF])}
         sub = lambda **kw: self.num(d - 1, **kw)
-        c = r.choice(['seq', 'ser', 'pn', 'len', 'drop', 'stut', 'diff', 'const', 'switch', 'switch1', 'place', 'slide',
+        c = r.choice(['seq', 'ser', 'pn', 'len', 'drop', 'stut', 'diff', 'const', 'switch', 'switch1', 'place', 'placep', 'slide',
                       'series', 'collect', 'select', 'reject', 'if', 'wrap', 'unop', 'binop', 'narop', 'flatclump'])
         if c in ('seq', 'ser'):
             l = [sub(fin=fin, nonempty=True) if r.random() < 0.6 else I(r.randint(0, 4)) for _ in range(r.randint(1, 3))]
@@ -157,6 +161,14 @@ class Gen:
             l = [sub(fin=True, nonempty=True) if r.random() < 0.5 else I(r.randint(0, 4)) for _ in range(r.randint(2, 3))]
             w = {'t': 'seq', 'l': self.ints(r.randint(2, 4)), 'r': r.choice([1, 2]), 'o': 0}
             return {'t': c, 'l': l, 'a': w}
+        if c == 'placep':
+            l = [sub(fin=True) if r.random() < 0.7 else I(r.randint(0, 4)) for _ in range(r.randint(2, 3))]
+            if fin or nonempty:
+                l.append(sub(fin=True, nonempty=True))
+            reps = r.choice([1, 2, 4, INF])
+            if all(i['t'] != 'int' for i in l) or reps != INF:
+                return {'t': 'placep', 'l': l, 'r': reps if not (fin and reps == INF and any(i['t'] == 'int' for i in l)) else 3, 'o': r.randint(0, 1)}
+            return {'t': 'placep', 'l': l, 'r': 3 if fin else reps, 'o': r.randint(0, 1)}
         if c == 'place':
             l = [I(r.randint(0, 4)), {'t': 'arr', 'l': [sub(fin=True, nonempty=True), I(r.randint(0, 4))]}]
             if r.random() < 0.5:
@@ -174,6 +186,8 @@ class Gen:
             if nonempty:
                 return sub(fin=fin, nonempty=True)
             return {'t': c, 'f': r.choice(['even', 'odd', 'gt1', 'le2']), 'p': sub(fin=True)}
+        if c == 'if' and self.noif:
+            return sub(fin=fin, nonempty=nonempty)
         if c == 'if':
             cond = {'t': 'seq', 'l': [I(r.randint(0, 1)) for _ in range(r.randint(2, 4))], 'r': r.choice([1, 2, INF]), 'o': 0}
             if fin:
@@ -321,7 +335,7 @@ def run_cases(ctx, cases, n):
         for i in late[:3]:
             o = ctx.run_driver(DRIVER, dict(N=n, timeout=60.0, cases=[byid[i]]))
             again[i] = o['traces'][0]
-        if late[3:] and not any(e['r']['k'] == 'timeout' for t in again.values() for e in t['ev']):   # it was the load
+        if late[3:] and len(late) <= 20 and not any(e['r']['k'] == 'timeout' for t in again.values() for e in t['ev']):   # it was the load
             o = ctx.run_driver(DRIVER, dict(N=n, timeout=60.0, cases=[byid[i] for i in late[3:]]), timeout=3600)
             again.update({t['id']: t for t in o['traces']})
         traces = [again.get(t['id'], t) for t in traces]
@@ -353,10 +367,20 @@ def judge(ctx, traces, source, bad_tags, may_skip=()):
         ts = [g for g in tags(x) if g != 'sc']
         # attribute to a class already seen failing on its own (depth 1), else to the root class
         culprit = next((g for g in ts if g in bad_tags), ts[0])
-        if depth(x) <= 1 or ts[0] == 'seed':
+        if depth(x) <= 2 and culprit == ts[0]:
             bad_tags.add(ts[0])
         e = t['ev'][at - 1]
-        ctx.violation('pattern:%s:%s' % (culprit, why if why.startswith('raises') else why.split(':')[0]),
+        # classification only: did this stream already signal its end before the rejected call?
+        ended = False
+        for e2 in t['ev'][:at - 1]:
+            if e2['s'] == e['s'] and e['op'] != 'list':
+                if e2['op'] in ('new', 'reset'):
+                    ended = False
+                elif e2['r']['k'] in ('stop', 'seqstop') or e2['op'] == 'all':
+                    ended = True
+        sigwhy = 'after-end' if (ended and not why.startswith(('raises', 'Immutable'))) else \
+            why if why.startswith('raises') else why.split(':')[0]
+        ctx.violation('pattern:%s:%s' % (culprit, sigwhy),
                       '%s: real stream disagrees with the documented sequence (%s) at call %d (%s on stream %d): observed %s'
                       % (show(x), why, at, e['op'], e['s'], json.dumps(e['r'])[:200]),
                       dict(kind='expr', x=x, n=t['n'], sched=[[e['op'], e['s'], e['n']] for e in t['ev']],
@@ -391,7 +415,7 @@ def require_marks(r, names):
 
 def simulated_cases(ctx, num, n, first_id):
     """S->C with TLC-chosen interleavings: behaviours of the stream machine (PatternModel, streams config) turned
-    into schedules for the real streams.  Which stream an action touched is read off the state change."""
+    into schedules for the real streams.  Which stream an action touched is the model's variable `who`."""
     from harness import tlc
     behs, r = tlc.simulate_behaviours('PatternModel', 'PatternModel_streams.cfg', ctx.work, num=num, depth=16,
                                       seed=ctx.seed + 1, env=JVM, timeout=600)
@@ -405,12 +429,7 @@ def simulated_cases(ctx, num, n, first_id):
                 cur = dict(id=first_id + len(cases), x=st['p'], sched=[])
                 cases.append(cur)
             elif act != 'Init' and cur is not None and prev is not None:
-                i = next((k + 1 for k, (a, c) in enumerate(zip(prev['pos'], st['pos'])) if a != c), None)
-                if i is None:
-                    d = set(st['fin']) ^ set(prev['fin'])
-                    i = d.pop() if d else None
-                if i is None:
-                    raise MachineryError('cannot tell which stream %s touched' % act)
+                i = st['who']
                 rv = st['ret']
                 if act == 'New':
                     cur['sched'].append(['new', i, ['stream', 'iter', 'embed'][(len(cases) + i) % 3]])
